@@ -30,6 +30,8 @@ use tracing::{debug, info};
 /// Will return an appropriate error if the socket cannot be bound to the supplied address, or the TCP server cannot be
 /// properly initialized.
 pub async fn start(config: Config) -> Result<(), Box<dyn std::error::Error>> {
+    #[cfg(passage_verif)]
+    use passage_protocol::verif::rt as tokio;
     // initialize the adapters
     debug!("building adapters");
     let status = DynStatusAdapter::from_config(config.adapters.status).await?;
